@@ -360,3 +360,42 @@ func vt_C05_client_setattr() {
 	}
 	vEmit("k", x.k)
 }
+
+func vt_C05_tree_walk() {
+	vh_C05_tree_walk()
+	t, root := vTInit, vTArg
+	a, b := vRealBuild(t), vRealBuild(t)
+	defer os.RemoveAll(a)
+	defer os.RemoveAll(b)
+	c, closeAll := vRealClient(a)
+	defer closeAll()
+	var got, want []string
+	gerr, werr := 0, 0
+	w := c.Walk(a + root)
+	for w.Step() {
+		if w.Err() != nil {
+			gerr++
+			continue
+		}
+		got = append(got, strings.TrimPrefix(w.Path(), a))
+	}
+	filepath.Walk(b+root, func(p string, fi os.FileInfo, err error) error {
+		if err != nil {
+			werr++
+			return nil
+		}
+		want = append(want, strings.TrimPrefix(p, b))
+		return nil
+	})
+	vAssert(gerr == werr, "Walk (real fs): errors reported as by filepath.Walk"+vDbg(root, gerr, werr))
+	// (filepath.Walk sorts each directory; the walker takes the entries in the order the
+	// server lists them, as Client.ReadDir does - the same set, parents before children)
+	for i, g := range got {
+		for _, h := range got[:i] {
+			vAssert(!strings.HasPrefix(h, g+"/"), "Walk (real fs): a directory is visited before its contents")
+		}
+	}
+	sort.Strings(got)
+	sort.Strings(want)
+	vAssert(strings.Join(got, "\n") == strings.Join(want, "\n"), "Walk (real fs): the entries filepath.Walk visits"+vDbg(root, got, want))
+}
